@@ -290,6 +290,104 @@ func runFormat(args []string) int {
 			samples = append(samples, c)
 		}
 	}
+	// provenance: validity depends on the (step, points) values only - not on where the ArchiveInfo values come from.
+	// Lists are derived from values another entry point handed out (which carry that list's hidden offsets): the tail of
+	// an accepted list, and an accepted list extended by one fresh archive.
+	validOf := map[string]bool{}
+	for _, c := range layouts {
+		validOf[fmt.Sprint(c.Layout)] = c.Valid
+	}
+	donors := func(lay []MArch, id int) map[string]wt.ArchiveInfoList {
+		out := map[string]wt.ArchiveInfoList{}
+		fresh := make(wt.ArchiveInfoList, len(lay))
+		for i, a := range lay {
+			fresh[i] = wt.NewArchiveInfo(wt.Duration(a.Step), uint32(a.N))
+		}
+		if _, err := wt.NewHeader(wt.Sum, 0.5, fresh); err == nil {
+			out["a list NewHeader accepted"] = fresh
+		}
+		if s, ok := retentionString(lay); ok {
+			if l, err := wt.ParseArchiveInfoList(s); err == nil {
+				out["a parsed retention string"] = l
+			}
+		}
+		var total int64
+		for _, a := range lay {
+			total += a.N
+		}
+		if total <= 100000 {
+			cp := filepath.Join(dir, fmt.Sprintf("donor%d.wsp", id))
+			f2 := make(wt.ArchiveInfoList, len(lay))
+			for i, a := range lay {
+				f2[i] = wt.NewArchiveInfo(wt.Duration(a.Step), uint32(a.N))
+			}
+			if db, err := wt.Create(cp, f2, wt.Sum, 0.5); err == nil {
+				if db.Sync() == nil {
+					db.Close()
+					if db2, err := wt.Open(cp); err == nil {
+						out["an opened file's header"] = append(wt.ArchiveInfoList{}, db2.Header().ArchiveInfoList()...)
+						db2.Close()
+					}
+				} else {
+					db.Close()
+				}
+			}
+			os.Remove(cp)
+		}
+		return out
+	}
+	tryDerived := func(what string, derived wt.ArchiveInfoList, lay []MArch, want bool, id int) {
+		evals++
+		_, err := wt.NewHeader(wt.Sum, 0.5, append(wt.ArchiveInfoList{}, derived...))
+		if (err == nil) != want && len(viols) < 60 {
+			viols = append(viols, violation{Prop: "C07", What: "NewHeader accept/reject depends on the provenance of the list",
+				Detail: fmt.Sprintf("%s: accepted=%v (%v), specification says valid=%v", what, err == nil, err, want),
+				Line:   map[string]interface{}{"layout": lay, "derived": what}})
+		}
+		var total int64
+		for _, a := range lay {
+			total += a.N
+		}
+		if total <= 100000 {
+			evals++
+			cp := filepath.Join(dir, fmt.Sprintf("derived%d.wsp", id))
+			db, err := wt.Create(cp, append(wt.ArchiveInfoList{}, derived...), wt.Sum, 0.5)
+			if err == nil {
+				db.Close()
+			}
+			os.Remove(cp)
+			if (err == nil) != want && len(viols) < 60 {
+				viols = append(viols, violation{Prop: "C07", What: "Create accept/reject depends on the provenance of the list",
+					Detail: fmt.Sprintf("%s: accepted=%v (%v), specification says valid=%v", what, err == nil, err, want),
+					Line:   map[string]interface{}{"layout": lay, "derived": what}})
+			}
+		}
+	}
+	nprov := 0
+	for i, c := range layouts {
+		k := len(c.Layout)
+		if !c.Valid || k < 2 || c.Layout[0].N > 1000000 {
+			continue
+		}
+		if nprov >= 400 && i%7 != 0 {
+			continue
+		}
+		nprov++
+		tail := c.Layout[1:]
+		if want, ok := validOf[fmt.Sprint(tail)]; ok {
+			for name, d := range donors(c.Layout, i) {
+				tryDerived("the tail of "+name, d[1:], tail, want, i)
+			}
+		}
+		head := c.Layout[:k-1]
+		if hv, ok := validOf[fmt.Sprint(head)]; ok && hv {
+			last := c.Layout[k-1]
+			for name, d := range donors(head, i) {
+				ext := append(append(wt.ArchiveInfoList{}, d...), wt.NewArchiveInfo(wt.Duration(last.Step), uint32(last.N)))
+				tryDerived(name+" extended by a fresh archive", ext, c.Layout, true, i)
+			}
+		}
+	}
 	id := len(layouts)
 	for m, mv := range methods {
 		for x, xv := range xffs {
